@@ -125,7 +125,7 @@ def _add(a, b):
     return [a[i] + b[i] for i in range(3)]
 
 
-def gen_align_case(rng, max_deg=30.0, noise=None, flip=False, wide=False, hard=False, small=False):
+def gen_align_case(rng, max_deg=30.0, noise=None, flip=False, wide=False, hard=False, small=False, counts=None):
     """A solved system seen from a misaligned frame.  Ground truth lives in the desired frame: origin at 0,
     x-axis samples (a,0,0) a in [0.3,3], plane samples (b,c,0) with |c| >= 0.3 (well conditioned), base stations
     above the floor.  The inputs to align() are the images under the misalignment M (rotation < max_deg, |t| <= 3 m),
@@ -172,6 +172,8 @@ def gen_align_case(rng, max_deg=30.0, noise=None, flip=False, wide=False, hard=F
         return _add(_mv(MR, _add(p, nz())), Mt)
 
     nx, npl, nb = rng.randint(1, 4), rng.randint(1, 4), rng.randint(1, 4)
+    if counts:
+        nx, npl = counts
     origin = img([0.0, 0.0, 0.0])
     x_axis = [img([rng.uniform(0.3, 3.0), 0.0, 0.0]) for _ in range(nx)]
     plane = [img([rng.uniform(-3.0, 3.0), rng.uniform(0.3, 3.0) * rng.choice([-1, 1]), 0.0]) for _ in range(npl)]
@@ -492,15 +494,83 @@ def _reference_T(case):
     return np.array(_rodrigues(list(r.x[:3]))), np.array(r.x[3:6])
 
 
-def check_align(case):
-    """Property text on the real align(); returns a failure dict or None."""
+REUSABLE_KINDS = ['arrays', 'lists', 'f64', 'view']       # containers that can be refilled in place
+
+
+def _refill(box, kind, vals, single=False):
+    """Overwrite the CONTENTS of an existing container (same object, same length) with new points."""
+    np = _np()
+    if kind in ('f64', 'view') or (kind == 'arrays' and single):
+        box[...] = np.array(vals, dtype=float)
+    elif single:
+        box[:] = [float(x) for x in vals]
+    elif kind == 'arrays':
+        for i, v in enumerate(vals):
+            if i % 2:
+                box[i] = np.array(v, dtype=float)          # element replaced, list object kept
+            else:
+                box[i][...] = np.array(v, dtype=float)     # element refilled in place
+    else:
+        for i, v in enumerate(vals):
+            box[i][:] = [float(x) for x in v]
+
+
+def gen_history_case(rng):
+    """2-4 align() calls; 'P' steps pass the SAME persistent containers (origin, x_axis, xy_plane objects and the bs_poses
+    dict), refilled in place with that step's new layout, 'F' steps pass fresh containers; at least two consecutive 'P'."""
+    while True:
+        pattern = [rng.choice('PF') for _ in range(rng.randint(2, 4))]
+        if any(a == 'P' and b == 'P' for a, b in zip(pattern, pattern[1:])):
+            break
+    counts = (rng.randint(1, 4), rng.randint(1, 4))
+    steps = [gen_align_case(rng, counts=counts, small=(rng.random() < 0.2)) for _ in pattern]
+    return {'kind': 'align_history', 'pattern': ''.join(pattern), 'steps': steps, 'bs': steps[0]['bs'],
+            'container': [rng.choice(REUSABLE_KINDS) for _ in range(3)]}
+
+
+def check_align_history(case):
+    """align is a function of the CURRENT contents of its arguments: every call of the history is judged against the
+    layout handed over in that call, whatever was passed before and whether or not the container objects are reused."""
+    kinds = case['container']
+    boxed = None
+    for k, (how, step) in enumerate(zip(case['pattern'], case['steps'])):
+        if how == 'F':
+            f = check_align(step)
+        else:
+            step = dict(step, container=kinds, pose_readonly=False)
+            if boxed is None:
+                boxed = [_box(step['origin'], kinds[0], single=True), _box(step['x_axis'], kinds[1]),
+                         _box(step['xy_plane'], kinds[2]), {}]
+            else:
+                _refill(boxed[0], kinds[0], step['origin'], single=True)
+                _refill(boxed[1], kinds[1], step['x_axis'])
+                _refill(boxed[2], kinds[2], step['xy_plane'])
+            boxed[3].clear()
+            boxed[3].update(_bsdict(step['bs'], step.get('bs_same')))
+            f = check_align(step, boxed=boxed)
+        if f:
+            reused = how == 'P' and 'P' in case['pattern'][:k]
+            return {'class': 'align_depends_on_previous_call' if reused else f['class'], 'case': case,
+                    'expected': f.get('expected'), 'observed': f.get('observed'),
+                    'detail': 'call %d of the history %s (%s containers%s) fails: %s' % (
+                        k + 1, case['pattern'], 'persistent, refilled in place' if how == 'P' else 'fresh',
+                        ', kinds %s' % kinds if how == 'P' else '', f['class'])}
+    return None
+
+
+def check_align(case, boxed=None):
+    """Property text on the real align(); returns a failure dict or None.  boxed: argument objects to pass (history
+    cases reuse them across calls); otherwise built from the case."""
     np = _np()
     A = _cf()[0]
     kinds = case.get('container') or ['arrays', 'arrays', 'arrays']
-    in_origin = _box(case['origin'], kinds[0], single=True)
-    in_x = _box(case['x_axis'], kinds[1])
-    in_plane = _box(case['xy_plane'], kinds[2])
-    bs = _bsdict(case['bs'], case.get('bs_same'))
+    if boxed is not None:
+        in_origin, in_x, in_plane, bs = boxed
+    else:
+        in_origin = _box(case['origin'], kinds[0], single=True)
+        in_x = _box(case['x_axis'], kinds[1])
+        in_plane = _box(case['xy_plane'], kinds[2])
+        bs = _bsdict(case['bs'], case.get('bs_same'))
     if case.get('pose_readonly'):
         _freeze(bs.values())
     # the values actually handed over (float32 / int containers round them), taken before the call
@@ -719,7 +789,8 @@ def check_scale_diag(case):
     return None
 
 
-CHECKS = {'align': check_align, 'scale_fixed': check_scale_fixed, 'scale_diag': check_scale_diag}
+CHECKS = {'align': check_align, 'align_history': check_align_history, 'scale_fixed': check_scale_fixed,
+          'scale_diag': check_scale_diag}
 
 
 def _check(case):
@@ -766,6 +837,8 @@ def oracle(ctx, deep=False):
         cases.append(gen_align_case(ctx.rng, wide=True))
     for _ in range(n_align // 4):
         cases.append(gen_align_case(ctx.rng, small=True))
+    for _ in range(n_align // 10):
+        cases.append(gen_history_case(ctx.rng))
     for _ in range(ctx.scale(300, 3000)):
         cases.append(gen_scale_case(ctx.rng))
     for i in range(ctx.scale(150, 1500)):
@@ -797,17 +870,23 @@ def oracle(ctx, deep=False):
             for key, val in (('angle_deg', decade(sm['angle_deg'])), ('translation_m', decade(sm['translation_m'])), ('mode', sm['mode'])):
                 mag[key][val] = mag[key].get(val, 0) + 1
     n_small = sum(mag['mode'].values())
+    pats = {}
+    for c in cases:
+        if c['kind'] == 'align_history':
+            pats[c['pattern']] = pats.get(c['pattern'], 0) + 1
     return {'evaluations': len(cases), 'failures': out, 'distinct_nontrivial': 0,
             'rule': 'align on random layouts (misalignment <= 30 deg / 3 m, 1-4 samples per axis/plane, 1-4 base stations, '
                     'a third of them with 20-30 deg and 2-3 m, %d with bounded noise, %d corpus cases first): rigid (1e-9), inputs untouched, flips resolved, equal to '
                     'ground truth / independently converged optimum (1e-5); %d layouts with any misalignment up to 180 deg '
                     'and mirrored: rigid, inputs untouched, flips resolved; %d boundary-scale layouts (rotation log-uniform 1e-6..30 deg, '
                     'translation log-uniform 1e-9..3 m, either or both exactly zero, single coordinate axis or random direction, '
-                    'noise-free) exact to %g with misalignment magnitudes per decade %s; scale_fixed_point and scale_diagonals against the '
+                    'noise-free) exact to %g with misalignment magnitudes per decade %s; %d multi-call histories (2-4 align calls, persistent '
+                    'argument containers refilled in place / fresh ones, patterns %s), each call judged on its current contents; scale_fixed_point and scale_diagonals against the '
                     'generating factor; point arguments are handed over as %s (arrays = list of 1-D float64, view = non-contiguous '
                     'view of a larger array, int = rounded: no exactness check), %d cases with read-only arrays inside the Pose '
                     'objects, tuple/list sequences; every input is compared bit for bit (identity, dtype, strides, flags, bytes, '
-                    'base array of views) before/after; failures per class: %s' % (noisy, n_corpus, wide, n_small, TOL_SMALL, json.dumps(mag, sort_keys=True), kinds, frozen, seen),
+                    'base array of views) before/after; failures per class: %s' % (noisy, n_corpus, wide, n_small, TOL_SMALL, json.dumps(mag, sort_keys=True),
+                                                         sum(pats.values()), json.dumps(pats, sort_keys=True), kinds, frozen, seen),
             'samples': [{'kind': c['kind'], 'angle_deg': c.get('angle_deg'), 'n_bs': len(c['bs'])} for c in cases[n_corpus:n_corpus + 2]]}
 
 
